@@ -1,5 +1,246 @@
-import Pithos.Model.Range
-import Pithos.Spec.Rfc7233
+/-
+C05 — range reads return exactly the requested slice.
+
+Property theorems only. Model: `Pithos.Model.Range` (the Go code, switchable between the code as it
+is, `Cfg.asIs`, and the two proposed repairs, `Cfg.repaired`); spec: `Pithos.Spec.Rfc7233`; helper
+lemmas: `Pithos.Lemmas.Range`. Everything is stated for all object contents, ALL part splittings
+(`parts : List (List α)`), all header values and all object sizes that fit an int64 — no bound.
+"`hdr` is a syntactically valid Range header" is `Rfc7233.parseHeader hdr = some specs`.
+-/
+import Pithos.Lemmas.Range
+
 namespace Pithos.C05
-theorem placeholder : True := trivial
+open Pithos.Range Pithos.Rfc7233
+
+/-! ## what the code as it is needs in addition (the excluded triggers, decidable) -/
+
+instance : DecidablePred bounded := fun s => by
+  cases s <;> simp only [bounded] <;> exact inferInstance
+
+/-- The inputs on which the unrepaired code is correct: every numeral fits an int64 and no
+last-byte-pos is 2^63-1 (else `end+1` wraps / ParseInt fails), and a multi-range list is either
+entirely satisfiable or entirely unsatisfiable (else the one unsatisfiable member turns the whole
+request into 416). -/
+def NoTrigger (size : Nat) (specs : List RangeSpec) : Prop :=
+  (∀ s ∈ specs, bounded s) ∧
+  (2 ≤ specs.length →
+    (∀ s ∈ specs, satisfiable size s = true) ∨ (∀ s ∈ specs, satisfiable size s = false))
+
+instance (size : Nat) (specs : List RangeSpec) : Decidable (NoTrigger size specs) := by
+  unfold NoTrigger; exact inferInstance
+
+/-! ## the response -/
+
+/-- General form, for every combination of the two repairs: a repair that is absent is replaced by
+the corresponding half of `NoTrigger`. -/
+theorem range_response_correct_cfg {α : Type} (cfg : Cfg) (sepLen : Int) (parts : List (List α))
+    (hdr : List Char) (specs : List RangeSpec)
+    (hsize : (totalLen parts : Int) ≤ maxI64) (hvalid : parseHeader hdr = some specs)
+    (hnum : cfg.sat = false → ∀ s ∈ specs, bounded s)
+    (hmulti : cfg.dropUnsat = false → 2 ≤ specs.length →
+      (∀ s ∈ specs, satisfiable (totalLen parts) s = true) ∨ (∀ s ∈ specs, satisfiable (totalLen parts) s = false)) :
+    httpGet cfg sepLen hdr parts = ofSpec sepLen (eval specs parts.flatten) := by
+  obtain ⟨hp, hne, hwf⟩ := parse_agree cfg hdr specs hvalid hnum
+  exact httpGet_of_parse cfg sepLen hdr parts specs hp hne hwf hsize hmulti
+
+/-- **range_response_correct** (repaired code, full strength). For every object content, every
+splitting of it into parts, and every syntactically valid Range header, the GET answers exactly what
+RFC 7233 prescribes: 416 iff no range is satisfiable, otherwise 206 with the satisfiable ranges in
+request order — last-byte-pos clamped to the end, suffix ranges counted from the end, positions of
+any magnitude — each with the Content-Range that describes its bytes, and Content-Length = length of
+the body (single part: stated here; multipart: `multi_content_length_matches_body`). -/
+theorem range_response_correct {α : Type} (sepLen : Int) (parts : List (List α)) (hdr : List Char)
+    (specs : List RangeSpec) (hsize : (totalLen parts : Int) ≤ maxI64)
+    (hvalid : parseHeader hdr = some specs) :
+    httpGet Cfg.repaired sepLen hdr parts = ofSpec sepLen (eval specs parts.flatten) :=
+  range_response_correct_cfg Cfg.repaired sepLen parts hdr specs hsize hvalid
+    (fun h => by simp [Cfg.repaired] at h) (fun h => by simp [Cfg.repaired] at h)
+
+/-- **range_response_correct_partial** (the code as it is): the same conclusion on the inputs
+without a trigger. -/
+theorem range_response_correct_partial {α : Type} (sepLen : Int) (parts : List (List α)) (hdr : List Char)
+    (specs : List RangeSpec) (hsize : (totalLen parts : Int) ≤ maxI64)
+    (hvalid : parseHeader hdr = some specs) (hno : NoTrigger (totalLen parts) specs) :
+    httpGet Cfg.asIs sepLen hdr parts = ofSpec sepLen (eval specs parts.flatten) :=
+  range_response_correct_cfg Cfg.asIs sepLen parts hdr specs hsize hvalid (fun _ => hno.1) (fun _ => hno.2)
+
+theorem ofSpec_eq_416_iff {α : Type} (sepLen : Int) (specs : List RangeSpec) (content : List α) :
+    ofSpec sepLen (eval specs content) = .status 416 ↔ ∀ s ∈ specs, satisfiable content.length s = false := by
+  rw [eval_of_filter]
+  by_cases hk : (specs.filter (satisfiable content.length)).isEmpty = true
+  · rw [if_pos hk]
+    have : specs.filter (satisfiable content.length) = [] := by simpa using hk
+    simp only [ofSpec, true_iff]
+    intro s hs
+    have := List.filter_eq_nil_iff.1 this s hs
+    simpa using this
+  · rw [if_neg hk]
+    constructor
+    · intro h
+      exfalso
+      match hf : specs.filter (satisfiable content.length), hk with
+      | [], hk => simp at hk
+      | [_], _ => rw [hf] at h; simp [ofSpec] at h
+      | _ :: _ :: _, _ => rw [hf] at h; simp [ofSpec] at h
+    · intro h
+      exfalso
+      apply hk
+      have : specs.filter (satisfiable content.length) = [] :=
+        List.filter_eq_nil_iff.2 (fun s hs => by simp [h s hs])
+      simp [this]
+
+/-- **status416_iff_none_satisfiable** (repaired code): 416 is answered exactly when no requested
+range is satisfiable. -/
+theorem status416_iff_none_satisfiable {α : Type} (sepLen : Int) (parts : List (List α)) (hdr : List Char)
+    (specs : List RangeSpec) (hsize : (totalLen parts : Int) ≤ maxI64)
+    (hvalid : parseHeader hdr = some specs) :
+    httpGet Cfg.repaired sepLen hdr parts = .status 416 ↔ ∀ s ∈ specs, satisfiable (totalLen parts) s = false := by
+  rw [range_response_correct sepLen parts hdr specs hsize hvalid, ofSpec_eq_416_iff,
+    ← totalLen_eq_length_flatten]
+
+theorem status416_iff_none_satisfiable_partial {α : Type} (sepLen : Int) (parts : List (List α))
+    (hdr : List Char) (specs : List RangeSpec) (hsize : (totalLen parts : Int) ≤ maxI64)
+    (hvalid : parseHeader hdr = some specs) (hno : NoTrigger (totalLen parts) specs) :
+    httpGet Cfg.asIs sepLen hdr parts = .status 416 ↔ ∀ s ∈ specs, satisfiable (totalLen parts) s = false := by
+  rw [range_response_correct_partial sepLen parts hdr specs hsize hvalid hno, ofSpec_eq_416_iff,
+    ← totalLen_eq_length_flatten]
+
+/-! ## Content-Range / Content-Length describe the body -/
+
+/-- Every part RFC 7233 prescribes is self-describing: `first ≤ last < total = size`, the body is
+exactly the bytes `first … last` of the content and has `last - first + 1` bytes (so the
+Content-Range and, for a single part, the Content-Length of `range_response_correct` match the
+body). -/
+theorem content_range_describes_body {α : Type} (specs : List RangeSpec) (content : List α)
+    (hwf : ∀ s ∈ specs, wf s) (ps : List (Part α)) (h : eval specs content = .partialContent ps) :
+    ∀ p ∈ ps, p.first ≤ p.last ∧ p.last < content.length ∧ p.total = content.length ∧
+      p.body = slice content p.first p.last ∧ p.body.length = p.last + 1 - p.first := by
+  rw [eval_of_filter] at h
+  split at h
+  · cases h
+  · simp only [Response.partialContent.injEq] at h
+    subst h
+    intro p hp
+    obtain ⟨s, hs, rfl⟩ := List.mem_map.1 hp
+    obtain ⟨hs1, hs2⟩ := List.mem_filter.1 hs
+    have hb := resolve_bounds content.length s (hwf s hs1) hs2
+    exact ⟨hb.1, hb.2, rfl, rfl, length_slice content _ _ hb.2⟩
+
+/-- **multi_content_length_matches_body.** The Content-Length the handler declares for a
+multipart/byteranges response (`multiContentLength`, used by `ofSpec`) is the length of the body it
+writes, for every boundary, every number (≥ 1) of parts and all part bodies. -/
+theorem multi_content_length_matches_body {α : Type} (enc : Char → α) (sep : List Char)
+    (p : CR × List α) (ps : List (CR × List α)) :
+    ((renderMulti enc sep true (p :: ps)).length : Int) =
+      multiContentLength sep.length ((p :: ps).map fun q => (q.1, (q.2.length : Int))) :=
+  renderMulti_length_first enc sep p ps
+
+/-! ## the per-part arithmetic, for every part splitting -/
+
+/-- **range_reader_eq_slice.** `createRangeReader` (skip/limit per part, lazily concatenated) on a
+non-empty window `[s, e)` delivers `drop s |> take (e - s)` of the concatenation of the parts — by
+induction over the part list, for every splitting (empty parts included). -/
+theorem range_reader_eq_slice {α : Type} (parts : List (List α)) (s e : Nat) (h : s < e) :
+    createRangeReader parts ⟨some (s : Int), some (e : Int)⟩ = .ok ((parts.flatten.drop s).take (e - s)) :=
+  createRangeReader_window parts _ s e rfl rfl h
+
+/-- Two splittings of the same content are indistinguishable through range reads. -/
+theorem splitting_irrelevant {α : Type} (parts parts' : List (List α)) (hsame : parts.flatten = parts'.flatten)
+    (s e : Nat) (h : s < e) :
+    createRangeReader parts ⟨some (s : Int), some (e : Int)⟩ = createRangeReader parts' ⟨some (s : Int), some (e : Int)⟩ := by
+  rw [range_reader_eq_slice parts s e h, range_reader_eq_slice parts' s e h, hsame]
+
+/-- **storage_ranges_correct.** `storage.GetObject` with the storage ranges of well-formed
+range-specs: all satisfiable ⇒ one reader per range delivering the RFC slice; otherwise
+InvalidRange (the whole call). -/
+theorem storage_ranges_correct {α : Type} (parts : List (List α)) (specs : List RangeSpec) (hne : specs ≠ [])
+    (hwf : ∀ s ∈ specs, wf s) (hsize : (totalLen parts : Int) ≤ maxI64) :
+    getObject parts (specs.map toBR) =
+      if specs.all (satisfiable (totalLen parts)) then .ok (specs.map (sliceOf parts.flatten))
+      else .error .invalidRange := by
+  by_cases hall : specs.all (satisfiable (totalLen parts)) = true
+  · rw [if_pos hall]
+    exact getObject_all_sat parts specs hne hwf (by simpa using hall) hsize
+  · rw [if_neg hall]
+    apply getObject_some_unsat parts specs hwf _ hsize
+    apply Classical.byContradiction
+    intro hno
+    apply hall
+    rw [List.all_eq_true]
+    intro s hs
+    cases hq : satisfiable (totalLen parts) s
+    · exact absurd ⟨s, hs, hq⟩ hno
+    · rfl
+
+/-! ## negation witnesses for the code as it is (the replayed known findings) -/
+
+def ten : List (List Nat) := [[1, 2, 3, 4, 5, 6, 7, 8, 9, 10]]
+
+def hdrMaxEnd : List Char := ['b', 'y', 't', 'e', 's', '=', '0', '-', '9', '2', '2', '3', '3', '7', '2', '0', '3', '6', '8', '5', '4', '7', '7', '5', '8', '0', '7']
+def hdrBigEnd : List Char := ['b', 'y', 't', 'e', 's', '=', '0', '-', '9', '9', '9', '9', '9', '9', '9', '9', '9', '9', '9', '9', '9', '9', '9', '9', '9', '9', '9', '9']
+def hdrBigSuffix : List Char := ['b', 'y', 't', 'e', 's', '=', '-', '9', '9', '9', '9', '9', '9', '9', '9', '9', '9', '9', '9', '9', '9', '9', '9', '9', '9', '9', '9']
+def hdrOneUnsat : List Char := ['b', 'y', 't', 'e', 's', '=', '0', '-', '1', ',', '5', '0', '0', '-', '6', '0', '0']
+
+/-- `bytes=0-9223372036854775807` on 10 bytes: valid, satisfiable (RFC: the whole object), but the
+code as it is answers 416 (`end+1` wraps to -2^63). -/
+theorem asIs_end_maxint64_416 :
+    parseHeader hdrMaxEnd = some [.fromTo 0 9223372036854775807] ∧
+    eval [.fromTo 0 9223372036854775807] ten.flatten = .partialContent [⟨0, 9, 10, [1, 2, 3, 4, 5, 6, 7, 8, 9, 10]⟩] ∧
+    httpGet Cfg.asIs 26 hdrMaxEnd ten = .status 416 := by decide
+
+/-- `bytes=0-99999999999999999999` and `bytes=-99999999999999999999`: valid (positions are
+unbounded `1*DIGIT`), satisfiable, answered 416 (ParseInt: value out of range). -/
+theorem asIs_numeral_exceeds_int64_416 :
+    parseHeader hdrBigEnd = some [.fromTo 0 99999999999999999999] ∧
+    parseHeader hdrBigSuffix = some [.suffix 99999999999999999999] ∧
+    eval [.fromTo 0 99999999999999999999] ten.flatten = .partialContent [⟨0, 9, 10, [1, 2, 3, 4, 5, 6, 7, 8, 9, 10]⟩] ∧
+    eval [.suffix 99999999999999999999] ten.flatten = .partialContent [⟨0, 9, 10, [1, 2, 3, 4, 5, 6, 7, 8, 9, 10]⟩] ∧
+    httpGet Cfg.asIs 26 hdrBigEnd ten = .status 416 ∧
+    httpGet Cfg.asIs 26 hdrBigSuffix ten = .status 416 := by decide
+
+/-- `bytes=0-1,500-600` on 10 bytes: the first member is satisfiable (RFC: 206 with bytes 0-1), the
+code as it is answers 416. -/
+theorem asIs_multi_range_one_unsatisfiable_416 :
+    parseHeader hdrOneUnsat = some [.fromTo 0 1, .fromTo 500 600] ∧
+    eval [.fromTo 0 1, .fromTo 500 600] ten.flatten = .partialContent [⟨0, 1, 10, [1, 2]⟩] ∧
+    httpGet Cfg.asIs 26 hdrOneUnsat ten = .status 416 := by decide
+
+/-- Hence the full-strength statement is FALSE for the code as it is … -/
+theorem asIs_violates_range_response_correct :
+    ¬ (∀ (sepLen : Int) (parts : List (List Nat)) (hdr : List Char) (specs : List RangeSpec),
+        (totalLen parts : Int) ≤ maxI64 → parseHeader hdr = some specs →
+        httpGet Cfg.asIs sepLen hdr parts = ofSpec sepLen (eval specs parts.flatten)) := by
+  intro h
+  have h1 := h 26 ten hdrMaxEnd _ (by decide) asIs_end_maxint64_416.1
+  rw [asIs_end_maxint64_416.2.2, asIs_end_maxint64_416.2.1] at h1
+  simp [ofSpec] at h1
+
+/-- … while each repair removes its witnesses (same inputs, repaired model). -/
+theorem repaired_on_the_witnesses :
+    httpGet Cfg.repaired 26 hdrMaxEnd ten = .single ⟨0, 9, 10⟩ 10 [1, 2, 3, 4, 5, 6, 7, 8, 9, 10] ∧
+    httpGet Cfg.repaired 26 hdrBigEnd ten = .single ⟨0, 9, 10⟩ 10 [1, 2, 3, 4, 5, 6, 7, 8, 9, 10] ∧
+    httpGet Cfg.repaired 26 hdrBigSuffix ten = .single ⟨0, 9, 10⟩ 10 [1, 2, 3, 4, 5, 6, 7, 8, 9, 10] ∧
+    httpGet Cfg.repaired 26 hdrOneUnsat ten = .single ⟨0, 1, 10⟩ 2 [1, 2] := by decide
+
+/-! ## non-vacuity -/
+
+def fifteen : List (List Nat) := [[1, 2, 3, 4, 5], [6, 7, 8, 9, 10], [11, 12, 13, 14, 15]]
+def hdrThree : List Char := ['b', 'y', 't', 'e', 's', '=', '4', '-', '5', ',', ' ', '9', '-', '1', '0', ',', '-', '1']
+
+/-- The hypotheses of `range_response_correct` / `_partial` are met by a non-trivial input: a
+three-part object and a three-member list with OWS, a range crossing a part boundary and a suffix
+range; and the conclusion is the expected multipart response. -/
+example : (totalLen fifteen : Int) ≤ maxI64 ∧
+    parseHeader hdrThree = some [.fromTo 4 5, .fromTo 9 10, .suffix 1] ∧
+    NoTrigger (totalLen fifteen) [.fromTo 4 5, .fromTo 9 10, .suffix 1] ∧
+    eval [.fromTo 4 5, .fromTo 9 10, .suffix 1] fifteen.flatten =
+      .partialContent [⟨4, 5, 15, [5, 6]⟩, ⟨9, 10, 15, [10, 11]⟩, ⟨14, 14, 15, [15]⟩] := by decide
+
+example : httpGet Cfg.asIs 26 hdrThree fifteen =
+    .multi 229 [(⟨4, 5, 15⟩, [5, 6]), (⟨9, 10, 15⟩, [10, 11]), (⟨14, 14, 15⟩, [15])] := by decide +kernel
+
+/-- `NoTrigger` is not vacuous for multi-range lists that are entirely unsatisfiable either. -/
+example : NoTrigger 10 [.from_ 10, .suffix 0] ∧ ¬ NoTrigger 10 [.fromTo 0 1, .fromTo 500 600] ∧
+    ¬ NoTrigger 10 [.fromTo 0 9223372036854775807] := by decide
+
 end Pithos.C05
